@@ -351,6 +351,55 @@ mod proofs {
   }
 
   #[kani::proof]
+  #[kani::unwind(8)]
+  fn p25_payload_only() {
+    let payload: [u8; 2] = kani::any();
+    let script = [0x6a, 0x5d, 2, payload[0], payload[1]];
+    let tx = tx_with_script(&script, 1);
+    let r = Runestone::payload(&tx);
+    kani::cover!(r.is_some());
+    assert!(matches!(r, Some(Payload::Valid(_))));
+    std::mem::forget(r);
+    std::mem::forget(tx);
+  }
+
+  #[kani::proof]
+  #[kani::unwind(8)]
+  fn p25_integers_only() {
+    let payload: [u8; 4] = kani::any();
+    let r = Runestone::integers(&payload);
+    kani::cover!(r.is_ok());
+    if let Ok(v) = &r {
+      assert!(v.len() <= 4);
+    }
+    std::mem::forget(r);
+  }
+
+  #[kani::proof]
+  #[kani::unwind(8)]
+  fn p25_message_only() {
+    let tx = tx_with_script(&[], 1);
+    let ints: [u128; 4] = kani::any();
+    let m = Message::from_integers(&tx, &ints);
+    kani::cover!(m.flaw.is_some());
+    kani::cover!(m.edicts.len() == 0 && m.flaw.is_none());
+    std::mem::forget(m);
+    std::mem::forget(tx);
+  }
+
+  #[kani::proof]
+  #[kani::unwind(8)]
+  fn p25_decipher_only_l2() {
+    let payload: [u8; 2] = kani::any();
+    let script = [0x6a, 0x5d, 2, payload[0], payload[1]];
+    let tx = tx_with_script(&script, 1);
+    let r = Runestone::decipher(&tx);
+    kani::cover!(r.is_some());
+    std::mem::forget(r);
+    std::mem::forget(tx);
+  }
+
+  #[kani::proof]
   #[kani::unwind(12)]
   fn c25_decipher_vs_reference_l2() {
     decipher_vs_ref::<2>();
